@@ -14,14 +14,18 @@ use std::time::Duration;
 
 // ---------------------------------------------------------------- PRNG (splitmix64, as implrun::Rng)
 #[derive(Clone)]
-pub struct XRng(pub u64);
+pub struct XRng {
+    pub s: u64,
+    /// generator parameter carried along: size of the word vocabulary
+    pub vocab: usize,
+}
 impl XRng {
     pub fn new(seed: u64) -> Self {
-        XRng(seed ^ 0x9E37_79B9_7F4A_7C15)
+        XRng { s: seed ^ 0x9E37_79B9_7F4A_7C15, vocab: usize::MAX }
     }
     pub fn next(&mut self) -> u64 {
-        self.0 = self.0.wrapping_add(0x9E37_79B9_7F4A_7C15);
-        let mut z = self.0;
+        self.s = self.s.wrapping_add(0x9E37_79B9_7F4A_7C15);
+        let mut z = self.s;
         z = (z ^ (z >> 30)).wrapping_mul(0xBF58_476D_1CE4_E5B9);
         z = (z ^ (z >> 27)).wrapping_mul(0x94D0_49BB_1331_11EB);
         z ^ (z >> 31)
@@ -126,8 +130,10 @@ const TYPES: &[&str] = &["script", "image", "xhr", "document", "subdocument", "s
 const PARAMS: &[&str] = &["utm", "fbclid", "id", "ref"];
 const CSPS: &[&str] = &["script-src 'none'", "img-src 'self'", "frame-src x.com", "default-src *"];
 
+/// Words are drawn from the first `r.vocab` entries: a small vocabulary makes rules and URLs collide.
 fn word(r: &mut XRng) -> &'static str {
-    r.pick(WORDS)
+    let n = r.vocab.clamp(1, WORDS.len());
+    WORDS[r.below(n)]
 }
 
 /// A pattern that compiles to a regex (contains `*` or a non-final `^`, or is a /regex/).
@@ -277,6 +283,7 @@ pub fn is_pure_regex_rule(line: &str) -> bool {
 
 pub fn gen_workload(spec: &RunSpec) -> Workload {
     let mut r = XRng::new(spec.seed);
+    r.vocab = if spec.mode == Mode::Pure { r.range(3, 6) } else { r.range(6, 12) };
     let (rules, n_regex_rules) = gen_rules(&mut r, spec.mode);
     let optimize = spec.mode == Mode::Rich && r.chance(1, 2);
     let tags: Vec<&'static str> = if spec.mode == Mode::Rich {
@@ -333,7 +340,7 @@ pub fn lenient_policy() -> RegexManagerDiscardPolicy {
 /// How many queries of every thread are repeated after the run (post phase).
 pub const POST_QUERIES: usize = 2;
 pub fn mild_policy() -> RegexManagerDiscardPolicy {
-    RegexManagerDiscardPolicy { cleanup_interval: Duration::from_nanos(1), discard_unused_time: Duration::from_micros(20) }
+    RegexManagerDiscardPolicy { cleanup_interval: Duration::from_nanos(1), discard_unused_time: Duration::from_micros(500) }
 }
 
 pub fn build_engine(w: &Workload) -> Engine {
@@ -441,7 +448,20 @@ pub fn run_sequential(e: &Engine, qs: &[Query], keep: bool) -> (u64, Vec<String>
     let mut v = vec![];
     let mut bits = Vec::with_capacity(qs.len());
     for q in qs {
-        let (a, b) = answer(e, q);
+        // a panic is an answer too ("PANIC: ..."): it is reported by the comparison, not by a crash
+        let (a, b) = match std::panic::catch_unwind(std::panic::AssertUnwindSafe(|| answer(e, q))) {
+            Ok(x) => x,
+            Err(p) => {
+                let m = if let Some(s) = p.downcast_ref::<&str>() {
+                    s.to_string()
+                } else if let Some(s) = p.downcast_ref::<String>() {
+                    s.clone()
+                } else {
+                    "panic".to_string()
+                };
+                (format!("PANIC: {}", m), false)
+            }
+        };
         h = fnv(h, &a);
         bits.push(b);
         if keep {
@@ -500,4 +520,24 @@ pub fn cache_snapshot(e: &Engine, addrs: &[(u64, usize, String)]) -> Vec<(usize,
         .collect();
     v.sort();
     v
+}
+
+/// After the shared phase: exclusive (`&mut`) operations that take the lock through `&mut self`
+/// (`use_tags` -> `tags_with_set` -> `borrow_regex_manager().clear()`), then the post queries once
+/// more.  Digest of the canonical answers.
+pub fn retag_and_query(e: &mut Engine, w: &Workload) -> u64 {
+    e.use_tags(&["t2"]);
+    let mut h = FNV0;
+    for qs in &w.queries {
+        for q in qs.iter().take(POST_QUERIES) {
+            h = fnv(h, &answer(e, q).0);
+        }
+    }
+    e.use_tags(&[]);
+    for qs in &w.queries {
+        for q in qs.iter().take(POST_QUERIES) {
+            h = fnv(h, &answer(e, q).0);
+        }
+    }
+    h
 }
